@@ -133,7 +133,7 @@ def differential_scripts(cx, schs, scripts, variant, harness=WB, kind="random", 
         cx.sample("sib run %s %s" % (sn, ";".join(ops))[:400])
 
 
-def law_scripts(cx, schs, scripts, kind="law"):
+def law_scripts(cx, schs, scripts, kind="law", present=None):
     """Implementation only (law mode of the harness): every verdict must be 0, no abort, no hang — except after the
     trigger of a listed finding."""
     reqs = [request(i, schs[sn], ops, "cm") for i, (sn, ops) in enumerate(scripts)]
@@ -154,7 +154,8 @@ def law_scripts(cx, schs, scripts, kind="law"):
                         {"schema": sn, "ops": ops[:k + 1], "attrib": marks[0] if marks else None, "crash": True})
                 break
             m, g = strip_marks(gi[k])
-            marks += m
+            # a trigger counts only while the defect is there (its witness reproduced at the start of this run)
+            marks += [x for x in m if present is None or present.get(x, True)]
             if not g or g[-1] == "HANG":
                 cx.fail("sib", "harness aborted / hung in op %d (%s) of a law-mode script" % (k, opn),
                         {"schema": sn, "ops": ops[:k + 1], "attrib": marks[0] if marks else None, "crash": True})
@@ -351,7 +352,7 @@ def run(cx):
         sn = rng.choice(["S1", "S2", "S3"])
         law.append((sn, sibcomp.random_script(rng, schs[sn], 25 if cx.tier == "quick" else rng.choice([25, 60]), nids=12,
                                                prefill=rng.choice([0, 2, 5, 8]), law=True)))
-    law_scripts(cx, schs, law)
+    law_scripts(cx, schs, law, present=present)
 
 
 def replay(cx, payload):
